@@ -160,7 +160,7 @@ def run_case(prog):
             if parent is None:
                 ok = level in ([1], []) and all(uuid != a.task_uuid for a, _ in stack)
             else:
-                ok = uuid == parent.task_uuid and level[:-1] == parent._task_level.as_list()
+                ok = uuid == parent.task_uuid and level[:-1] == world.action_level(parent)
             if not ok:
                 viol.append(
                     (
@@ -185,15 +185,15 @@ def run_case(prog):
             else:
                 a = (start_task if task else start_action)(action_type="s")
             if fault == 1:
-                targets.add((a.task_uuid, tuple(a._task_level.as_list())))
+                targets.add((a.task_uuid, tuple(world.action_level(a))))
             if task:
-                if a._task_level.as_list() != [] or any(a.task_uuid == x.task_uuid for x, _ in stack):
-                    viol.append(("start_task-not-a-new-tree", {"level": a._task_level.as_list()}))
+                if world.action_level(a) != [] or any(a.task_uuid == x.task_uuid for x, _ in stack):
+                    viol.append(("start_task-not-a-new-tree", {"level": world.action_level(a)}))
             else:
                 if parent is not None:
-                    child_ok(a._task_level.as_list(), a.task_uuid, parent, "action")
-                if parent is None and a._task_level.as_list() != []:
-                    viol.append(("wrong-parent:action", {"level": a._task_level.as_list(), "parent": None}))
+                    child_ok(world.action_level(a), a.task_uuid, parent, "action")
+                if parent is None and world.action_level(a) != []:
+                    viol.append(("wrong-parent:action", {"level": world.action_level(a), "parent": None}))
             return a
 
         def block(stmts):
@@ -377,4 +377,4 @@ def run_case(prog):
 def _n(a):
     if a is None:
         return None
-    return "%s@%s" % (a._identification.get("action_type"), a._task_level.as_list())
+    return "%s@%s" % (world.action_type_of(a), world.action_level(a))
